@@ -132,7 +132,10 @@ def path_programs(ctx, n_per=None):
     pool += families.chans(ctx.tier, ctx.seed)
     n_per = n_per or (60 if ctx.tier == "quick" else 400)
     rng.shuffle(pool)
-    return pool[:n_per]
+    # a load with as many candidate stores as the tracked history holds (MAX_ATOMIC_HISTORY = 7: the initial value + 6 stores)
+    full = [dsl.normalize(families.P("full-history-load", [dsl.spawn(2), dsl.ld("x"), dsl.join(2)], [dsl.st("x", v) for v in range(1, 7)])),
+            dsl.normalize(families.P("full-history-rmw", [dsl.spawn(2), dsl.ld("x"), dsl.ld("x"), dsl.join(2)], [dsl.st("x", v) for v in range(1, 6)] + [dsl.swap("x", 6)]))]
+    return full + pool[:n_per - len(full)]
 
 
 def C14(ctx):
